@@ -49,6 +49,10 @@ def helper_scn(rng: random.Random, frames: list[dict], cuts: dict, bursts: list[
     for b in bursts:
         events.append({"at": {"t": t}, "do": "dev", "act": {"msgs": [frames[i] for i in b], "latency": 0.0}})
         t += pick(rng, [0.0, 0.0, 0.01])
+    if cuts.get("mode") == "sizes" and min(cuts.get("sizes", [99])) < 8 and stream_len(frames) > 60000:
+        # a dribble of a few bytes per read is for short streams: cap the payloads (one turn per read)
+        frames = [dict(f, payload_gen=[min(f["payload_gen"][0], 3000), f["payload_gen"][1]]) for f in frames]
+        events = [dict(e, act=dict(e["act"], msgs=[dict(m, payload_gen=[min(m["payload_gen"][0], 3000), m["payload_gen"][1]]) for m in e["act"]["msgs"]])) for e in events]
     return {
         "family": "framing",
         "knobs": knobs if knobs is not None else gen_knobs(rng),
